@@ -219,6 +219,7 @@ int main(int argc, char **argv)
 		jwt_value_t v;
 		char *gh, *gc, *tok, gmsg[80] = "", vmsg[80] = "";
 		int bad_set = 0;
+		long off_nbf = 0, off_exp = 0;
 		if (!vh_mine(&a, idx)) continue;
 		vh_rng_seed(&rng, a.seed, 7000000 + (uint64_t)idx);
 		/* ECDSA combos get extra weight: short r/s values are the rare event we are after */
@@ -271,9 +272,19 @@ int main(int argc, char **argv)
 				if (e != JWT_VALUE_ERR_NONE) bad_set++;
 			}
 		}
+		/* a third of the round trips use the builder's time offsets: nbf only, exp only, or both (the token is then verified at
+		 * the moment it becomes valid) */
+		off_nbf = off_exp = 0;
+		if (vh_below(&rng, 3) == 0 && now < ((int64_t)1 << 40)) {
+			static const long NO[] = { 1, 60, 3600 }, EO[] = { 3601, 86400, 31536000 };
+			int which = 1 + (int)vh_below(&rng, 3);
+			if (which & 1) { off_nbf = NO[vh_below(&rng, 3)]; jwt_builder_time_offset(b, JWT_CLAIM_NBF, (time_t)off_nbf); }
+			if (which & 2) { off_exp = EO[vh_below(&rng, 3)]; jwt_builder_time_offset(b, JWT_CLAIM_EXP, (time_t)off_exp); }
+		}
 		tok = jwt_builder_generate(b);
 		if (!tok) snprintf(gmsg, sizeof(gmsg), "%.70s", jwt_builder_error_msg(b));
 		cb_h = cb_c = NULL;
+		vh_now = (time_t)(now + off_nbf);
 		if (tok) {
 			refvalid = vh_ref_token_valid(&K[cb.k], tok, NULL);
 			if (vh_alg_family(cb.alg) == VH_FAM_ES) {
@@ -296,7 +307,7 @@ int main(int argc, char **argv)
 		printf(",%d,", refvalid);
 		vh_put_hex(stdout, cb_h ? cb_h : "", cb_h ? strlen(cb_h) : 0); printf(",");
 		vh_put_hex(stdout, cb_c ? cb_c : "", cb_c ? strlen(cb_c) : 0);
-		printf(",%d,%zu,%d]\n", ec_short, tok ? strlen(tok) : 0, bad_set);
+		printf(",%d,%zu,%d,%ld,%ld]\n", ec_short, tok ? strlen(tok) : 0, bad_set, off_nbf, off_exp);
 		free(cb_h); free(cb_c); free(tok); free(gh); free(gc);
 		free_members();
 		jwt_builder_free(b);
